@@ -319,6 +319,25 @@ pub fn run_c18(args: &Args) -> i32 {
     let window = window_family();
     let mut all: Vec<u64> = small.clone();
     all.extend(&window);
+    // irregular boards of every density (the structured families above have <= 16 or >= 48 squares or
+    // a regular pattern): a fixed xorshift sequence mixed with VERIF_SEED, each value also thinned
+    // (and of two) and thickened (or of two)
+    {
+        let mut state: u64 = 0x9E37_79B9_7F4A_7C15 ^ args.seed.wrapping_mul(0xD6E8_FEB8_6659_FD93);
+        if state == 0 {
+            state = 1;
+        }
+        let mut next = || {
+            state ^= state << 13;
+            state ^= state >> 7;
+            state ^= state << 17;
+            state
+        };
+        for _ in 0..1024 {
+            let (a, b, c) = (next(), next(), next());
+            all.extend([a, a & b, a | b, a & b & c, a | b | c]);
+        }
+    }
     all.sort();
     all.dedup();
     let mut evals = 0u64;
@@ -416,7 +435,7 @@ pub fn run_c18(args: &Args) -> i32 {
         json!({
             "evaluations": evals,
             "distinct_nontrivial": all.len() as u64 - 1,
-            "rule": "family = {empty, full, 64 singletons, 2016 pairs, 8 files, 8 ranks, complements of all of these} plus all 2^16 subsets of the 16-square window a1 b1 h1 a2 b2 h2 a8 b8 h8 g7 d4 e4 d5 e5 c3 f6 (every edge type). Every unary operation and every per-square operation (x 64 squares) on every member; the iterator explored from every suffix state of every member with next, size_hint and nth(n) for n in 0..=66 and ~70 values around every power of two up to 2^63 and usize::MAX (result and the state left behind compared with skipping n elements); all binary operators and their assign forms on small x small (thorough: small x everything). Non-trivial = distinct non-empty boards.",
+            "rule": "family = {empty, full, 64 singletons, 2016 pairs, 8 files, 8 ranks, complements of all of these} plus all 2^16 subsets of the 16-square window a1 b1 h1 a2 b2 h2 a8 b8 h8 g7 d4 e4 d5 e5 c3 f6 (every edge type) plus 5120 irregular boards of every density (a fixed xorshift sequence mixed with VERIF_SEED; each value, and-thinned and or-thickened). Every unary operation and every per-square operation (x 64 squares) on every member; the iterator explored from every suffix state of every member with next, size_hint and nth(n) for n in 0..=66 and ~70 values around every power of two up to 2^63 and usize::MAX (result and the state left behind compared with skipping n elements); all binary operators and their assign forms on small x small (thorough: small x everything). Non-trivial = distinct non-empty boards.",
             "family_size": all.len(),
             "bmi2_path": cfg!(target_feature = "bmi2"),
             "same_check_in_build_without_bmi2": other_flavour,
